@@ -215,6 +215,36 @@ Example message_nested_example :
     Some (SBundle true (5#2) 1 [SMsg 1; SBundle false (11#4) 11811161064 [SMsg 2]]).
 Proof. vm_compute. split; reflexivity. Qed.
 
+(* ---- the score closed from INSIDE a routine ----------------------------------------------------------
+   OscScore.finish documents that it uses the logical time of its call when called from a routine
+   (score.finish(tail) or main.process(tail) in a routine body).  Model: KScore.nrt_finish_inside (tailtime
+   stays relative to the routine's time T; the repaired code compares it with last - T).  For every program
+   and fuel, when the routine of the LAST wake-up closes the score at its logical time T = elapsed time: the
+   score is the score so far followed by the marker, whose time is max(T + tail, last bundle, T) (T itself
+   when the tail is negative and nothing reaches later), no entry is later, timetag = int(time * 2^32). *)
+Theorem score_ends_with_tail_marker_closed_inside : forall p fuel tail,
+  let st0 := nrt_loop repaired p fuel (nrt_main repaired p) in
+  exists t g, n_score (nrt_run_closed_inside repaired p fuel tail) =
+              n_score st0 ++ [mkS t (n_scnt st0) (SBundle false t g [SMsg cset_msg])]
+    /\ t == Qmaxq (Qmaxq (n_mtime st0 + tail) (score_last_time (n_score st0))) (n_mtime st0)
+    /\ (forall s, In s (n_score st0) -> s_time s <= t)
+    /\ g = Qtrunc (t * two32).
+Proof. exact nrt_tail_marker_inside. Qed.
+(* for any state and any closing instant T (not only the last wake-up) *)
+Theorem finish_inside_marker_is_last : forall tail T st, score_ok st ->
+  exists t g, n_score (nrt_finish_inside repaired tail T st) =
+              n_score st ++ [mkS t (n_scnt st) (SBundle false t g [SMsg cset_msg])]
+    /\ t == Qmaxq (Qmaxq (T + tail) (score_last_time (n_score st))) T
+    /\ (forall s, In s (n_score st) -> s_time s <= t)
+    /\ g = Qtrunc (t * two32).
+Proof. exact finish_inside_marker_last. Qed.
+Example closed_inside_example :
+  let p := mkProg [] [[Send (Some (1#10)) 0; Yield 2; Send (Some 0) 1]] [Play 0 CSystem] 0 in
+  map (fun s => Qred (s_time s)) (n_score (nrt_run_closed_inside repaired p 10 (1#2))) = [0; 1#10; 2; 5#2] /\
+  map (fun s => Qred (s_time s)) (n_score (nrt_run_closed_inside repaired p 10 4)) = [0; 1#10; 2; 6].
+Proof. vm_compute. split; reflexivity. Qed.
+
 Print Assumptions raw_is_concat_of_prefixed_encodings.
 Print Assumptions score_times_exact_timetags.
 Print Assumptions message_nested_bundle_stamp.
+Print Assumptions score_ends_with_tail_marker_closed_inside.
